@@ -32,6 +32,7 @@ class Config(object):
         rerun=0,  # number of rerun requests per history
         rerun_mode="default",  # default | tasks | all | failed | failed-pairs
         rerun_outcomes=None,  # outcome menu after a rerun (None: same menu)
+        rerun_with_inflight=False,  # allow a rerun request while actions of the failed run still report
         render=False,
         canceled_outcome=True,  # after a cancel request in-flight actions may report canceled
         extra_outcomes=(),  # e.g. timeout / abandoned
@@ -127,7 +128,7 @@ def gen_moves(sim, cfg):
     if status in simmod.COMPLETED:
         if cfg.render and not h.get("rendered"):
             moves.append((["render"], 0, None))
-        if b.get("rerun") and not h["inflight"] and not h["held"]:
+        if b.get("rerun") and not h["held"] and (not h["inflight"] or cfg.rerun_with_inflight):
             for reqs in rerun_requests(sim, cfg):
                 moves.append((["rerun", reqs], 1, "rerun"))
     return moves
